@@ -810,13 +810,18 @@ namespace
     }
     value resize_array_scalar(runtime& runtime, value::cref left, value::cref right)
     {
-        auto i = right.data<d_scalar, size_t>();
+        auto i = right.data<d_scalar, int>();
         if (i < 0)
         {
             runtime.__logmsg(err::NegativeSize(runtime.context_active().current_frame().diag_info_from_position()));
             return {};
         }
-        left.data<d_array>()->resize(i);
+        if (static_cast<size_t>(i) > d_array::max_size)
+        {
+            runtime.__logmsg(err::IndexOutOfRange(runtime.context_active().current_frame().diag_info_from_position(), d_array::max_size, static_cast<size_t>(i)));
+            return {};
+        }
+        left.data<d_array>()->resize(static_cast<size_t>(i));
         return {};
     }
     value deleterange_array_array(runtime& runtime, value::cref left, value::cref right)
@@ -1249,6 +1254,11 @@ namespace
             return {};
         }
         auto val = params[1];
+        if (static_cast<size_t>(index) >= d_array::max_size)
+        {
+            runtime.__logmsg(err::IndexOutOfRange(runtime.context_active().current_frame().diag_info_from_position(), d_array::max_size, static_cast<size_t>(index)));
+            return {};
+        }
         if (static_cast<int>(arr->size()) <= index)
         {
             arr->resize(index + 1);
